@@ -45,7 +45,8 @@ Section Gen.
 
   (* z = x*np.cos(a) + y*np.sin(a) *)
   Definition proj (xs ys : list T) (a : T) : list T :=
-    map (fun p => fst p * cosf O a + snd p * sinf O a) (combine xs ys).
+    let c := cosf O a in let s := sinf O a in
+    map (fun p => fst p * c + snd p * s) (combine xs ys).
 
   (* intersection of the tangent lines (a1, r1) and (a2, r2), formulas as in the source *)
   Definition den (a1 a2 : T) : T := sinf O a2 * cosf O a1 - sinf O a1 * cosf O a2.
@@ -102,9 +103,9 @@ Section Gen.
     match z with
     | [] => false
     | _ => let h := ofn O (length z - 1)%nat * p in
-           quantile_ok_at z h q neg_inf pos_inf
-           || quantile_ok_at z (h * (one O - eps)) q neg_inf pos_inf
-           || quantile_ok_at z (h * (one O + eps)) q neg_inf pos_inf
+           if quantile_ok_at z h q neg_inf pos_inf then true
+           else if quantile_ok_at z (h * (one O - eps)) q neg_inf pos_inf then true
+           else quantile_ok_at z (h * (one O + eps)) q neg_inf pos_inf
     end.
 
   (* -------- __init__: n = int(100/alpha) unless given; the supplied sample is used as it is, otherwise
@@ -122,10 +123,12 @@ Definition fpi : float := 0x1.921fb54442d18p+1.
 
 (* recorded engine values: association list keyed by the bits of the argument; a key the run never asked for
    gives nan (a structural disagreement) *)
+(* same number, zeros of the same sign (nan is never a key) *)
+Definition fkey_eq (k a : float) : bool := PrimFloat.eqb k a && PrimFloat.eqb (1 / k) (1 / a).
 Fixpoint lookup (tab : list (float * float)) (a : float) : float :=
   match tab with
   | [] => nan
-  | (k, v) :: tab' => if fbits_eq k a then v else lookup tab' a
+  | (k, v) :: tab' => if fkey_eq k a then v else lookup tab' a
   end.
 
 (* Python round(): to nearest integer, ties to even *)
